@@ -5,6 +5,8 @@ CONSTANTS
   Clients = {"c1", "c2"}
   MaxOps = 5
   NamesSurviveExit = FALSE
+  OpKinds = {"spawn", "register", "unregister", "send", "kill", "send_name", "link", "unlink", "monitor", "demonitor"}
+  PreSpawn = FALSE
   Sequential = FALSE
 CHECK_DEADLOCK FALSE
 INVARIANT NameFreedAfterExit
